@@ -70,6 +70,8 @@ func checkC08(p *Program, r *Result) {
 		importRule(p, r, "C08.o", func(sub *Result) { checkSummaryOffsetsComplete(p, sub, isSink) }, nil)
 	}
 	checkTimeFoldOnEveryPath(p, r, "C08.t")
+	r.rule("C08.s", "the statistics time range is updated exactly when a log time extends it", 2)
+	checkTimeFoldExact(p, r, "C08.s")
 
 	spec := sinkSpec()
 	R := p.reachSet(spec)
